@@ -1,9 +1,9 @@
 SPECIFICATION Spec
-CONSTANTS ZMax = 2
+CONSTANTS ZMax = 1
           NoYGuard = FALSE
           XBandLeftOpen = FALSE
-          NMin = 1
-          N = 4
+          NMin = 6
+          N = 6
           GapMax = 2
           HMax = 2
           WMax = 2
